@@ -37,6 +37,10 @@ MANUAL = {
     "1931542": [("stix2/base.py", "        try:\n            self._check_object_constraints()\n        except RecursionError:\n            raise ValueError(\n                \"%s content is nested too deeply\" % cls.__name__,\n            ) from None\n",
                  "        self._check_object_constraints()\n"),
                 ("stix2/v21/base.py", "            except RecursionError:\n                raise ValueError(\n                    \"%s content is nested too deeply\" % self.__class__.__name__,\n                ) from None\n", "")],
+    "f7968df": [("stix2/v20/common.py", "    if getattr(cr, 'precision', None) == Precision.MILLISECOND:", "    if cr.precision == Precision.MILLISECOND:")],
+    "59f657c": [("stix2/v21/base.py", "        if kwargs.get('id') in (None, []):", "        if 'id' not in kwargs:")],
+    "e01f0d6": [("stix2/patterns.py", "re.match(r\"^h'(([a-fA-F0-9]{2})*)'\\Z\", value)", "re.match(r\"^h'(([a-fA-F0-9]{2})+)'\\Z\", value)")],
+    "83c0cb5": [("stix2/equivalence/pattern/transform/comparison.py", '        if ast.operator in ("MATCHES", "LIKE", "<", ">", "<=", ">="):', '        if ast.operator in ("<", ">", "<=", ">="):')],
     "27b0e09": [("stix2/markings/utils.py", "    if isinstance(value, collections.abc.Mapping):\n\n        for item in iterpath(value, path):",
                  "    if isinstance(value, dict):\n\n        for item in iterpath(value, path):")],
 }
